@@ -192,3 +192,4 @@ Print Assumptions C20_caller_untouched_to_csv.
 Print Assumptions C20_caller_untouched_write_exec.
 Print Assumptions C20_caller_untouched_to_csv_exec.
 Print Assumptions C20_no_other_open_sites.
+Print Assumptions C20_api_returns_nothing.
